@@ -23,8 +23,8 @@ RULE = ("case = one sampler configuration (method, R, P, V, mask, assignment, sh
         "QMC cases additionally need V_handled>1 and R*P>1 to be able to expose scrambling (counted separately); distinct key = case index")
 ASSUMPTIONS = ["callers do not write into the array returned by generate_samples (ropt's own caller stopped doing so with /repo commit 08fcbdd)",
                "non-shared realizations 'differ' is only required when R>=2 and at least one handled variable (probability of an accidental tie is negligible for continuous draws)"]
-REQUIRED = {"quick": {"calls_checked": 3600, "qmc_vectors_matched": 8000, "qmc_multidim_cases": 296, "lhs_strata_checked": 300, "shared_checked": 600, "unhandled_zero_entries": 5000, "e2e_checked": 120, "calls_with_more_than_a_thousand_points": 20, "e2e_identically_configured_samplers": 15, "samplers_with_explicit_options": 60, "__nontrivial__": 1142},
-            "thorough": {"calls_checked": 90000, "qmc_vectors_matched": 200000, "qmc_multidim_cases": 7227, "lhs_strata_checked": 8000, "shared_checked": 15000, "unhandled_zero_entries": 120000, "e2e_checked": 2400, "calls_with_more_than_a_thousand_points": 500, "e2e_identically_configured_samplers": 300, "samplers_with_explicit_options": 1500, "__nontrivial__": 27891}}
+REQUIRED = {"quick": {"calls_checked": 3600, "qmc_vectors_matched": 8000, "qmc_multidim_cases": 296, "lhs_strata_checked": 300, "shared_checked": 600, "unhandled_zero_entries": 5000, "e2e_checked": 120, "calls_with_zero_weight_realizations": 200, "e2e_with_zero_weight_realizations": 12, "calls_with_more_than_a_thousand_points": 20, "e2e_identically_configured_samplers": 15, "samplers_with_explicit_options": 60, "__nontrivial__": 1142},
+            "thorough": {"calls_checked": 90000, "qmc_vectors_matched": 200000, "qmc_multidim_cases": 7227, "lhs_strata_checked": 8000, "shared_checked": 15000, "unhandled_zero_entries": 120000, "e2e_checked": 2400, "calls_with_zero_weight_realizations": 8000, "e2e_with_zero_weight_realizations": 200, "calls_with_more_than_a_thousand_points": 500, "e2e_identically_configured_samplers": 300, "samplers_with_explicit_options": 1500, "__nontrivial__": 27891}}
 N = {"quick": 2000, "thorough": 50000}
 METHODS = ["norm", "uniform", "truncnorm", "sobol", "halton", "lhs", "default"]
 BOUNDED = {"uniform", "truncnorm", "sobol", "halton", "lhs"}
@@ -95,6 +95,15 @@ def run_case(case, obs):
             if k == 0:
                 opt_range = rngk
             obs.count("samplers_with_explicit_options")
+    if R >= 2 and rng.random() < 0.3:
+        # the weights of the realizations are not the sampler's business: a realization with a configured weight of zero
+        # (a realization filter may still select it) gets its perturbations like every other one
+        w = rng.integers(1, 5, size=R).astype(float)
+        zero = rng.random(R) < 0.4
+        zero[int(rng.integers(R))] = False
+        spec["rweights"] = np.where(zero, 0.0, w).tolist()
+        if zero.any():
+            obs.count("calls_with_zero_weight_realizations", 3)
     spec["samplers"] = samplers
     smap = None
     if nsamp > 1 or rng.random() < 0.2:
@@ -156,8 +165,11 @@ def run_case(case, obs):
                 return
         elif R >= 2:
             obs.count("nonshared_checked")
-            if all(np.array_equal(h[0], h[r]) for r in range(1, R)):
-                obs.violation("nonshared_realizations_identical", method=m, call=k, R=R, P=P)
+            if any(np.array_equal(h[q], h[r]) for q in range(R) for r in range(q + 1, R)):
+                obs.violation("nonshared_realizations_identical", method=m, call=k, R=R, P=P, realization_weights=spec["rweights"])
+                return
+            if any(not np.any(h[r]) for r in range(R)):
+                obs.violation("realization_without_perturbations", method=m, call=k, R=R, P=P, realization_weights=spec["rweights"])
                 return
         lo_hi = opt_range if opt_range is not None else (-1.0, 1.0)
         if m in BOUNDED and (h.min() < lo_hi[0] or h.max() > lo_hi[1]):
@@ -212,6 +224,12 @@ def _e2e(case, obs):
             spec["samplers"][1] = dict(spec["samplers"][0])
             obs.count("e2e_identically_configured_samplers")
         spec["smap"] = [int(t) for t in rng.integers(0, 2, size=V)]
+    if R >= 2 and rng.random() < 0.3:
+        zero = rng.random(R) < 0.4
+        zero[int(rng.integers(R))] = False
+        spec["rweights"] = np.where(zero, 0.0, rng.integers(1, 5, size=R).astype(float)).tolist()
+        if zero.any():
+            obs.count("e2e_with_zero_weight_realizations")
     case["spec"] = spec
     cfg = ens.make_config(spec)
     ev = ens.RecordingEvaluator(spec)
@@ -253,6 +271,9 @@ def _e2e(case, obs):
         return
     if method in BOUNDED and np.max(np.abs(d)) > 1.0 + 1e-9:
         obs.violation("e2e_out_of_range", method=method, max=float(np.max(np.abs(d))))
+    if handled.any() and any(not np.any(d[r][:, handled]) for r in range(R)):
+        obs.violation("e2e_realization_without_perturbations", method=method, realization_weights=spec["rweights"], shared=spec["samplers"][0]["shared"])
+        return
     if method in QMC:
         allpts = np.vstack([p for _, p in _REC["log"]])
         h = d[..., handled]
